@@ -187,19 +187,29 @@ Qed.
 Lemma q_tp m : quiet (tp_step m) = true.
 Proof. unfold tp_step. destruct (fresh_pass m); [destruct (0 <=? m_pres m)|]; reflexivity. Qed.
 
-Lemma q_flush c t p : forall h hasbp leader lv ls, quiet (snd (flush c t p h hasbp leader lv ls)) = true.
+Lemma q_flush_sends c t p ep : forall buf sq, quiet (fst (flush_sends c t p sq ep buf)) = true.
+Proof.
+  induction buf as [|m r IH]; intros sq; [reflexivity|]. cbn [flush_sends].
+  destruct (c_idem c && fresh_pass m && is_data m && negb (m_hasseq m)).
+  - specialize (IH (sq + 1)). destruct (flush_sends c t p (sq + 1) ep r) as [e sq']. cbn [fst] in *. exact IH.
+  - specialize (IH sq). destruct (flush_sends c t p sq ep r) as [e sq']. cbn [fst] in *. exact IH.
+Qed.
+
+Lemma q_flush c t p : forall h hasbp leader lv stamp ls, quiet (snd (flush c t p h hasbp leader lv stamp ls)) = true.
 Proof.
   induction h as [|h' IH]; intros; [reflexivity|]. cbn [flush].
+  pose proof (q_flush_sends c t p (snd stamp) (l_buf (get_level h' lv)) (fst stamp)) as Qs.
+  destruct (flush_sends c t p (fst stamp) (snd stamp) (l_buf (get_level h' lv))) as [es sq'] eqn:Es. cbn [fst] in Qs.
   destruct hasbp.
-  - destruct (l_chaser (get_level h' lv) || (h' =? 0)%nat); cbn [snd]; [apply q_sends|].
-    specialize (IH true leader (set_buf h' [] lv) ls). destruct (flush c t p h' true leader _ ls) as [res e2].
-    cbn [snd] in *. rewrite quiet_app, q_sends, IH. reflexivity.
+  - destruct (l_chaser (get_level h' lv) || (h' =? 0)%nat); cbn [snd]; [exact Qs|].
+    specialize (IH true leader (set_buf h' [] lv) (sq', snd stamp) ls). destruct (flush c t p h' true leader _ _ ls) as [res e2].
+    cbn [snd] in *. rewrite quiet_app, Qs, IH. reflexivity.
   - destruct (next_lres ls) as [[b|e] r].
-    + destruct (l_chaser (get_level h' lv) || (h' =? 0)%nat); cbn [snd]; [rewrite quiet_app, q_sends; reflexivity|].
-      specialize (IH true b (set_buf h' [] lv) r). destruct (flush c t p h' true b _ r) as [res e2].
-      cbn [snd] in *. rewrite !quiet_app, q_sends, IH. reflexivity.
+    + destruct (l_chaser (get_level h' lv) || (h' =? 0)%nat); cbn [snd]; [rewrite quiet_app, Qs; reflexivity|].
+      specialize (IH true b (set_buf h' [] lv) (sq', snd stamp) r). destruct (flush c t p h' true b _ _ r) as [res e2].
+      cbn [snd] in *. rewrite !quiet_app, Qs, IH. reflexivity.
     + destruct (l_chaser (get_level h' lv) || (h' =? 0)%nat); cbn [snd]; [apply q_return_errors|].
-      specialize (IH false leader (set_buf h' [] lv) r). destruct (flush c t p h' false leader _ r) as [res e2].
+      specialize (IH false leader (set_buf h' [] lv) (fst stamp, snd stamp) r). destruct (flush c t p h' false leader _ _ r) as [res e2].
       cbn [snd] in *. rewrite quiet_app, q_return_errors, IH. reflexivity.
 Qed.
 
@@ -228,8 +238,8 @@ Proof.
     + destruct (length (p_levels st1) <=? m_retries m)%nat; [cbn [snd]; rewrite quiet_app, He1; reflexivity|].
       destruct (is_fin m); cbn [snd]; [|exact He1]. rewrite quiet_app, He1. reflexivity.
     + destruct (is_fin m); [|apply q_pp_forward, He1].
-      pose proof (q_flush c t p (p_hwm st1) (p_has_bp st1) (p_leader st1) (set_chaser (p_hwm st1) false (p_levels st1)) ls) as Hfl.
-      destruct (flush c t p (p_hwm st1) (p_has_bp st1) (p_leader st1) _ ls) as [[[[h' hasbp] leader] lv'] effs].
+      pose proof (q_flush c t p (p_hwm st1) (p_has_bp st1) (p_leader st1) (set_chaser (p_hwm st1) false (p_levels st1)) stamp ls) as Hfl.
+      destruct (flush c t p (p_hwm st1) (p_has_bp st1) (p_leader st1) _ stamp ls) as [[[[h' hasbp] leader] lv'] effs].
       cbn [snd] in *. rewrite !quiet_app, He1, Hfl. reflexivity.
 Qed.
 Lemma q_pp_init c t p l : quiet (snd (pp_init c t p l)) = true.
